@@ -1,4 +1,5 @@
 import PV.Model.Queues
+import PV.Model.RingReserve
 import PV.Driver.Proto
 /-
 Trace acceptance for C16: the controlled scheduler (harness/implsched_main.cc) reports which thread was
@@ -30,6 +31,7 @@ def runLabels {σ lab : Type} (step : σ → lab → Option σ) : σ → List la
 /-! PCQueue: threads 0..P-1 produce, P.. consume; semaphore 0 = empty_, 1 = used_ -/
 def pcqLabels (nProd : Nat) (e : Ev) : Option (List PCQ.Label) :=
   if e.op == "start" then some []
+  else if e.op == "unlock" then some []      -- the thread resumes after releasing a mutex: the critical section is one LTS step
   else if e.thread < nProd then
     match e.op, e.sem with
     | "wait", some 0 => some [.pWait e.thread]
@@ -75,33 +77,33 @@ def usqAccept (p : USQ.Params) : USQ.State → List Ev → Nat → Except String
       | none => .error s!"rejected-at {i} not-enabled"
 
 /-! Ring: thread 0 = caller, 1 = writer thread; semaphore 0 = output_, 1 = trash_ -/
-def ringClosure (p : Ring.Params) : Nat → Ring.State → Ring.State
+def ringClosure (p : Ring2.Params) : Nat → Ring2.State → Ring2.State
   | 0, s => s
   | fuel + 1, s =>
-    match Ring.step p s .pCopy with
+    match Ring2.step p s .pCopy with
     | some s' => ringClosure p fuel s'
-    | none => match Ring.step p s .pCall with
+    | none => match Ring2.step p s .pCall with
       | some s' => ringClosure p fuel s'
       | none => s
 
-def ringAccept (p : Ring.Params) (fuel : Nat) : Ring.State → List Ev → Nat → Except String Ring.State
+def ringAccept (p : Ring2.Params) (fuel : Nat) : Ring2.State → List Ev → Nat → Except String Ring2.State
   | s, [], _ => .ok s
   | s, e :: es, i =>
     if s.pPc == .joined then .ok s      -- the caller's own ~Lease post after join is outside the model
     else
-      let r : Option Ring.State :=
+      let r : Option Ring2.State :=
         match e.thread, e.op, e.sem with
         | 0, "start", _ => some s
-        | 0, "wait", some 1 => Ring.step p s .pAcquire
+        | 0, "wait", some 1 => Ring2.step p s .pAcquire
         | 0, "cont", some 1 => some (ringClosure p fuel s)          -- the write() calls up to the next spill
-        | 0, "post", some 0 => Ring.step p s .pSpill
+        | 0, "post", some 0 => Ring2.step p s .pSpill
         | 0, "cont", some 0 => some s
-        | 0, "join", _ => Ring.step p s .pJoin
-        | 1, "wait", some 0 => Ring.step p s .cAcquire
-        | 1, "cont", some 0 => if s.blocks.getD s.cCur [] = [] then some s else Ring.step p s .cWrite   -- writer_.write(...)
-        | 1, "post", some 1 => Ring.step p s .cRelease
+        | 0, "join", _ => Ring2.step p s .pJoin
+        | 1, "wait", some 0 => Ring2.step p s .cAcquire
+        | 1, "cont", some 0 => if s.blocks.getD s.cCur [] = [] then some s else Ring2.step p s .cWrite   -- writer_.write(...)
+        | 1, "post", some 1 => Ring2.step p s .cRelease
         | 1, "cont", some 1 => some s
-        | 1, "post", some 0 => Ring.step p s .cWrite               -- size 0: leave the loop, ~Lease posts
+        | 1, "post", some 0 => Ring2.step p s .cWrite               -- size 0: leave the loop, ~Lease posts
         | 1, "cont", _ => some s
         | _, _, _ => none
       match r with
@@ -137,19 +139,30 @@ def unit (args : List String) : String :=
       | .error m => m
       | .ok s => s!"accepted {evs.length} final={s.pPc == .idle && s.produced == n && s.cPc == .idle && s.got.length == n} fifo={s.got == List.range n}"
     | _, _ => "bad-op"
-  | "ring" :: sizes :: evs =>
-    match csvNat sizes, evs.mapM parseEv with
-    | some sizes, some evs =>
-      -- the byte pattern the harness writes: v++ % 251 over the whole sequence
-      let total := sizes.foldl (· + ·) 0
-      let bytes := (List.range total).map (fun k => UInt8.ofNat (k % 256 % 251))
-      let rec cut : List Nat → List UInt8 → List (List UInt8)
-        | [], _ => []
-        | n :: ns, bs => bs.take n :: cut ns (bs.drop n)
-      let p : Ring.Params := ⟨PV.Gen.kBlocks, PV.Gen.kBlockSize, cut sizes bytes⟩
-      match ringAccept p (total + sizes.length + 2) (Ring.init p) evs 0 with
+  | "ring" :: toks :: evs =>
+    -- tokens: <n> = write() of n bytes (pattern v++ % 251 over the written bytes); u<d> = operator<< of the d-digit
+    -- number 10^(d-1) (Ensure(kBytesU64)); c = operator<< of 'x' (Ensure(1))
+    let tokens := if toks == "-" then [] else (toks.splitOn ",").filter (· ≠ "")
+    let rec build : List String → Nat → Option (List Ring2.Call)
+      | [], _ => some []
+      | t :: ts, v =>
+        if t == "c" then (build ts v).map (⟨1, [120]⟩ :: ·)
+        else if t.startsWith "u" then
+          match (t.drop 1).toNat? with
+          | some d =>
+            let d := max 1 (min d 20)
+            (build ts v).map (⟨PV.Gen.kBytesU64, (49 : UInt8) :: List.replicate (d - 1) 48⟩ :: ·)
+          | none => none
+        else match t.toNat? with
+          | some n => (build ts (v + n)).map (⟨0, (List.range n).map (fun k => UInt8.ofNat ((v + k) % 256 % 251))⟩ :: ·)
+          | none => none
+    match build tokens 0, evs.mapM parseEv with
+    | some calls, some evs =>
+      let p : Ring2.Params := ⟨PV.Gen.kBlocks, PV.Gen.kBlockSize, calls⟩
+      let total := (Ring2.allBytes p).length
+      match ringAccept p (total + 2 * calls.length + 2) (Ring2.init p) evs 0 with
       | .error m => m
-      | .ok s => s!"accepted {evs.length} final={s.pPc == .joined} bytes={s.file.length} file-ok={s.file == p.calls.flatten}"
+      | .ok s => s!"accepted {evs.length} final={s.pPc == .joined} bytes={s.file.length} file-ok={s.file == Ring2.allBytes p}"
     | _, _ => "bad-op"
   | _ => "bad-op"
 
